@@ -118,6 +118,9 @@ func checkFetch(t *testing.T, c Case) (v harness.Verdict) {
 				mu.Lock()
 				got = append(got, batchRec{phase: ph, start: b.Start, entries: b.Entries})
 				mu.Unlock()
+				if st.callbackMustStop() {
+					fe.Stop() // on the worker's own goroutine
+				}
 				if d := c.cbLat(b.Start); d > 0 {
 					vt.Sleep(context.Background(), d)
 				}
@@ -238,7 +241,7 @@ func judgeFetchPhase(c *Case, o *outcome, log []truth, got []batchRec, v *harnes
 			v.Failf("missing-delivery", "%s%d indices never delivered (Run started at %v, returned at %v, stop issued=%v at %v, Stop before first Run: %v); first: %s", tag, missing, o.startAt, o.returnedAt, o.stopIssued, o.stopAt, c.PreStop, firstMsg["missing"])
 		}
 	}
-	if ok && o.spec.StopKind == stopStop && o.stopIssued && below == 0 && len(count) > 0 {
+	if ok && (o.spec.StopKind == stopStop || o.spec.StopKind == stopInCallback) && o.stopIssued && below == 0 && len(count) > 0 {
 		// graceful stop: "Run will try to finish all the started fetches" - what was delivered has no holes
 		idx := make([]int64, 0, len(count))
 		for i := range count {
@@ -328,6 +331,10 @@ func classify(c *Case, outs []*outcome, v *harness.Verdict) {
 		v.Class("stop:never")
 	case !o.stopIssued:
 		v.Class("stop:after-return")
+	case c.StopKind == stopInCallback && o.stopAt < o.planStop:
+		v.Class("stop:from-inside-callback")
+	case c.StopKind == stopInCallback:
+		v.Class("stop:from-inside-callback-not-reached")
 	case c.StopAtMs < 0:
 		v.Class(fmt.Sprintf("stop:kind%d-after-settling", c.StopKind))
 	default:
